@@ -2,7 +2,7 @@
 """Generates MANIFEST.json from the table below (kept in one place so that it stays valid)."""
 import json
 claimed = {
- "C01": ("S1 explicit-state BFS over request histories vs a reference model + S2 preemption-bounded schedule DFS, on the real server",
+ "C01": ("S1 explicit-state BFS over request histories vs a reference model + S2 preemption-bounded schedule DFS + back-pressure / join-answered histories, on the real server",
          "Every history up to the depth over the family alphabets (3 connections, modules on/off) executed on the real server and compared step by step with the reference model; every member's replica (built only from received bytes) = the state a probe joiner is handed = the model in every reached state; every lock/channel-granularity interleaving (<=1 preemption quick, <=2 thorough) of ~85 request pairs/triples on a shared session ends with view = probe for every member.", "6"),
  "C02": ("S1 history BFS vs reference model (exact recipient multisets per event) + S2 schedule DFS (exactly-once by origin timestamp)",
          "Per event the multiset of messages each connection receives must equal the model's expectation (no duplicate, no echo, nothing after a refusal); under concurrency each accepted change reaches every member-throughout exactly once and never its sender, in every explored interleaving.", "6"),
@@ -10,37 +10,37 @@ claimed = {
          "Families with coinciding participant/entity/type ids, raw ids valid only in the other session, unjoined connections, reused session ids; any message or state change caused across sessions is a mismatch; under concurrency nothing of the old session is delivered after the answer to a switch.", "6"),
  "C04": ("S1 history BFS vs reference model with acceptable-outcome sets per request",
          "Every request kind x boundary ids/names x prior history up to the depth: exactly one answer with an acceptable code, nothing to anyone else, refused => model state (and probe) unchanged, unjoined session-scoped requests never executed.", "6"),
- "C05": ("S1 history BFS vs reference model over every (requester, entity) + S2 concurrent id allocation",
+ "C05": ("S1 history BFS vs reference model over every (requester, entity) + S2 concurrent id allocation (plain and -race build)",
          "Delete / pose / asset by owner and non-owner (incl. after the owner left, never-issued ids) against the model; participant ids never reissued (also under concurrent joins, atomics included as scheduling points).", "6"),
  "C06": ("S1 history BFS vs reference model (departure rule) + S2 departure-vs-join interleavings",
          "Close and switch departures with persistent/non-persistent entities and attachments (components, actions, assets, subscriptions) against the model and a probe; concurrent departure vs join interleavings end with the joiner's view = probe.", "6"),
  "C07": ("S2 schedule DFS (preemption-bounded, exhaustive) over the real server + S1 lifecycle BFS",
          "Every lock/channel-granularity interleaving (<=2 preemptions quick, <=3 thorough) of the named join/leave/create races plus membership histories; registry/gauge/worker/no-orphan invariants and a probe joiner in every final state.", "6"),
- "C08": ("bounded-exhaustive input enumeration at every life-cycle point on the controlled runtime (deadlock / panic / teardown oracles, watchdog for non-termination)",
+ "C08": ("bounded-exhaustive input enumeration at every life-cycle point + S3 fault placement (close / error / stall / timers) at every scheduling point + S2/S1 blocks, on the controlled runtime (deadlock / panic / teardown oracles, watchdog for non-termination)",
          "Every message type with every optional field absent or at a boundary, byte-level frame mutations, bursts of failing requests, idle timeout under a virtual clock, at 4 life-cycle points in the production decoration: no goroutine panics, no deadlock, the connection is ended exactly once through the normal path or stays served, witness undisturbed, process alive.", "6"),
  "C09": ("S2 schedule DFS executed in the -race build (happens-before race detector per explored schedule) and in the plain build; lock-order graph; porcupine linearizability of the store",
          "All blocks of the catalogue in the production decoration: race reports between hagall threads at hagall access sites on every explored schedule, deadlock states, lock-order cycles, split module state, plus linearizability of the component store API under all 2-3 thread interleavings.", "6"),
- "C10": ("exhaustive operation-sequence enumeration of the id source (all map orders) + S2 concurrent allocations + S1 families",
+ "C10": ("exhaustive operation-sequence enumeration of the id source (all map orders) + S2 concurrent allocations (plain and -race build) + S1 families",
          "All New/Reuse sequences up to depth 8 (9 thorough) with every map iteration order, 2-3 threads under the schedule DFS, and ids seen at system level (responses, states) in histories and concurrent blocks.", "6"),
  "C11": ("S3 deviation-bounded search: environment actions (ticks, joins, closes) placed at every scheduling point + owner threads interleaved; S1 BFS for the sequential semantics",
          "Pose scripts with sequence numbers over two entities, deletes, a joiner, switch, close, dropped updates; tick placement relative to arrival and consumption enumerated up to the deviation bound; order, latest-arrives, none-after-delete, newcomer-gets-latest oracles.", "6"),
- "C12": ("S1 history BFS vs a map model + S2 concurrent add/add and type registration",
+ "C12": ("S1 history BFS vs a map model + S2 concurrent add/add, update vs removal and type registration",
          "Component requests with ids that exist / never existed / no longer exist, type names, look-ups; map model incl. cascade on entity removal; concurrent duplicate adds and registrations.", "6"),
- "C13": ("S1 history BFS vs required/allowed recipient sets + S2 unsubscribe-vs-update",
+ "C13": ("S1 history BFS (components, subscriptions) vs required/allowed recipient sets + S2 unsubscribe-vs-update, change vs departure of the only subscriber",
          "Subscribe/unsubscribe/leave/component changes by three participants over two types; update relays to subscribers only, none after the answer to an unsubscribe in any interleaving.", "6"),
- "C14": ("bounded-exhaustive input product executed on the real server vs the model",
-         "All ordered recipient lists (<=3 over members, sender, unknown, other-session id; plus a 600-entry list) x body lengths {0,1,10236..10244} x byte patterns, sessions of 1-4 members with a second live session.", "6"),
- "C15": ("bounded-exhaustive token x carrier product x explicit-state machine of the server's secret, in-process and on the real binary",
+ "C14": ("bounded-exhaustive input product executed on the real server vs the model + S2/S3 join-vs-relay and back-pressure histories",
+         "All ordered recipient lists (<=4, thorough <=5, over members, sender, unknown, other-session id; plus a 600-entry list) x body lengths {0,1,10236..10244} x byte patterns, sessions of 1-4 members with a second live session.", "6"),
+ "C15": ("bounded-exhaustive token x carrier product x explicit-state machine of the server's secret, in-process and on the real binary + exhaustive interleavings of a request with a re-registration / a second request (plain and -race build)",
          "42 token classes x 3 carriers (+27 combinations) x every sequence <=3 of register-A/register-B/unregister on the exported wrappers, and on the binary built from /repo/cmd registered by a harness-owned discovery service (unregistered, secret 1, lapsed, secret 2); independent HMAC reference verifier.", "6"),
- "C16": ("S1 history BFS vs last-writer-wins model",
+ "C16": ("S1 history BFS vs last-writer-wins model + S2/S3 action-vs-join blocks",
          "Actions with timestamps t0<t1 (same second) <t2, zero, missing; names; own/foreign/unknown entities; assets; deletes, departures by close and switch, late joiner; model + probe (VIKJA_STATE/ODAL_STATE).", "6"),
  "C17": ("all 1024 flag subsets x covering histories + S1 families under flags, expectation = flag-free model minus the flagged classes",
          "Per connection the stream must equal the reference expectation minus the classes the set flags name; responses identical; a flag-free probe is handed the model's state; unknown names no effect.", "6"),
- "C18": ("exhaustive enumeration of client behaviour sequences under a virtual clock + map-order exploration",
-         "Every behaviour sequence <=6 (7 thorough) after a start with n in {3,4}; iteration-count/wallet/joined product; every map iteration order for the statistics; signature recovery, binding, recomputed statistics, refusal of illegitimate answers.", "6"),
- "C19": ("bounded-exhaustive triples (singles and ordered pairs) x service behaviours + S3 interleavings of submitters and forwarder",
+ "C18": ("exhaustive enumeration of client behaviour sequences under a virtual clock + map-order exploration + restart-vs-ping-answer interleavings (plain and -race build)",
+         "Every behaviour sequence <=7 (8 thorough) after a start with n in {3,4}; iteration-count/wallet/joined product; every map iteration order for the statistics; signature recovery, binding, recomputed statistics, refusal of illegitimate answers.", "6"),
+ "C19": ("bounded-exhaustive triples (singles, ordered pairs, thorough: ordered triples) x service behaviours (incl. outage then recovery) + S3 interleavings of submitters and forwarder",
          "20 triple classes, credit service {200,500,error,never}, queue capacity {1,2,128}; forwarded <=> well-formed (go-ethereum primitives as reference) and accepted, once, unchanged; one answer; no main loop ever waits on the queue.", "6"),
- "C20": ("explicit-state BFS over insertion sequences of the real grid + exact-arithmetic (math/big) primitive references + S1 session-level family",
+ "C20": ("explicit-state BFS over insertion sequences of the real grid (three lattices) + exact-arithmetic (math/big) primitive references + S1 session-level families + S2 departure-vs-join / insert-vs-query blocks",
          "Grid built as the module builds it, lattice alphabets (100 and 643 quads), depth 2-3: index completeness invariants in every reached state; primitives over the full product of a float32 alphabet; samples shared/retained across joins and leaves.", "6"),
 }
 NA = {}
